@@ -229,6 +229,9 @@ func c02(r *core.Run) {
 	c03GateSwap(r, "C02.SWAP")
 	c02VirtualView(r)
 	c02RenamerThreaded(r)
+	// exchanging the operands of the variable's own update (i = i + 1 ↔ i = 1 + i) keeps it an induction variable:
+	// the classifier takes the step from whichever operand is not the variable (rule shared with C12)
+	r.Under("C12.IV", "C02.COMM", func() { c12StepOperand(r) })
 	c02DeclOrder(r)
 	c02PhiOrder(r)
 	c02TripPolarity(r)
